@@ -339,3 +339,19 @@ O("C06.chkpnt", ["C06", "C11"], "h_C06.c", "h_C06_chkpnt",
   ["chkpnt"], dfcc=True, replace=["chkpnt1", "chkpnta"],
   replace_status={"chkpnt1": "counting contract here; protocol discharged by C06.chkpnt1", "chkpnta": "counting contract (internals not covered)"},
   solver=["minisat", "kissat"], timeout={"quick": 600, "thorough": 1800}, unwind=18, replay=False, replay_note="callees replaced by contracts")
+
+# ------------------------------------------------------------------ C07
+P("C07", level="proof",
+  level_text="Contracts of the zone lookups on the real tzraw.c in an abstract zone (symbolic strictly increasing transitions, symbolic types and offsets): __find_trno returns the interval of t and terminates; __offs returns the offset in force from a fresh cache and after an arbitrary earlier lookup and keeps the cache coherent (inductive over histories); zif_utc_time/zif_local_time are inverse for unambiguous local times; forward instant->unix time for every month (C08.epoch.to). Zone files are configuration: proofs are for all well-formed zones within the stated number of transitions.",
+  level_note="Trusted: CBMC semantics; zone files satisfy ZIF_WF (strictly increasing transitions, type indices < typecnt); C division identity for offset arithmetic (C08). Bounded: number of transitions in the abstract zone (4 quick / 8 thorough) for termination and uniqueness. Not covered: the zoneinfo loader (mmap, byte order, v2+ data), the MFU zone cache of tzob.c, the per-occurrence offset correction in evical.c refill.",
+  not_covered=["zoneinfo file loader (__read_zif, __conv_zif), 64-bit data and POSIX TZ footers", "tzob.c MFU cache of open zones and zone-index encoding", "offset correction per occurrence in refill / __make_evrrul (evical.c)"])
+E07 = dict(solver=["minisat", "kissat"], timeout={"quick": 900, "thorough": 3600}, unwind=8, native_srcs=[])
+O("C07.find_trno", "C07", "h_C07.c", "h_C07_find_trno",
+  "__find_trno over every zone with <= 4 strictly increasing transitions and every t: returns the index of the last transition at or before t (-1 before the first) and terminates (unwinding assertion), also when t equals a transition",
+  ["__find_trno", "zif_trans"], kind="bounded", bound="<= 4 transitions", **E07)
+O("C07.offs", "C07", "h_C07.c", "h_C07_offs",
+  "__offs / __find_zrng: from a fresh cache and after an arbitrary earlier lookup the result is the offset in force at t; the cached range contains t and the cached offset is in force on all of it (witness time)",
+  ["__offs", "__find_zrng", "__find_trno", "zif_troffs"], kind="bounded", bound="<= 4 transitions, two consecutive lookups", **E07)
+O("C07.utc_local", "C07", "h_C07.c", "h_C07_utc_local",
+  "zif_local_time == UTC + offset in force; zif_utc_time inverts it for local times more than a day away from every transition",
+  ["zif_local_time", "zif_utc_time", "__offs"], kind="bounded", bound="<= 4 transitions", **E07)
